@@ -242,4 +242,11 @@ def r5_buffer_position(ctx):
             ctx.ob("R5", "buffer_position[%s]" % ("InsideMarkup" if inside else "other"), ok, "offset-1 exactly in state InsideMarkup (the '<' already consumed), offset otherwise: returns %s" % sym.show(r), config=cfg)
 
 
-RULES = [("R1", r1_restore), ("R2", r2_depth), ("R3", r3_read_text), ("R5", r5_buffer_position)]
+def r6_positions(ctx):
+    """the reported span is made of reader positions: every source helper must advance the position by exactly what it
+    consumed (C02 R2 / C08 R2 path summaries, re-evaluated here)"""
+    import consume
+    consume.check(ctx, "R6")
+
+
+RULES = [("R1", r1_restore), ("R2", r2_depth), ("R3", r3_read_text), ("R5", r5_buffer_position), ("R6", r6_positions)]
